@@ -203,6 +203,68 @@ func (f *facts) threadedWrappers(files []*ast.File, prims map[string]bool) map[s
 	return out
 }
 
+// forwarders: functions / methods of `file` all of whose return statements hand back, unchanged, the results of a call
+// to a function accepted by `base` (or to another forwarder) — e.g. a helper that picks the header parser by version.
+// A call to a forwarder is, for byte accounting and control flow, a call to one of the functions it forwards to.
+func (f *facts) forwarders(file *ast.File, base func(name string) bool) map[string]bool {
+	out := map[string]bool{}
+	if file == nil {
+		return out
+	}
+	last := func(p string) string {
+		if i := strings.LastIndex(p, "."); i >= 0 {
+			return p[i+1:]
+		}
+		return p
+	}
+	for changed := true; changed; {
+		changed = false
+		for _, d := range file.Decls {
+			fd, ok := d.(*ast.FuncDecl)
+			if !ok || fd.Body == nil || out[fd.Name.Name] || base(fd.Name.Name) {
+				continue
+			}
+			rets, good := 0, true
+			ast.Inspect(fd.Body, func(n ast.Node) bool {
+				if _, isLit := n.(*ast.FuncLit); isLit {
+					return false
+				}
+				r, isRet := n.(*ast.ReturnStmt)
+				if !isRet {
+					return true
+				}
+				rets++
+				if len(r.Results) != 1 {
+					good = false
+					return true
+				}
+				c, isCall := r.Results[0].(*ast.CallExpr)
+				if !isCall {
+					good = false
+					return true
+				}
+				nm := last(selPath(c.Fun))
+				if !base(nm) && !out[nm] {
+					good = false
+				}
+				return true
+			})
+			if good && rets > 0 {
+				out[fd.Name.Name] = true
+				changed = true
+			}
+		}
+	}
+	return out
+}
+
+func lastName(p string) string {
+	if i := strings.LastIndex(p, "."); i >= 0 {
+		return p[i+1:]
+	}
+	return p
+}
+
 func containsCall(n ast.Node, suffix string) bool {
 	found := false
 	ast.Inspect(n, func(x ast.Node) bool {
@@ -700,6 +762,7 @@ func extractMuxFacts(repo, root string) error {
 
 	// ---- ReadBatchWith: the size handed to newMessageSetReader is the one the header parser returned
 	if fd := findFunc(conn, "Conn", "ReadBatchWith"); fd != nil {
+		hdrFwd := f.forwarders(conn, func(n string) bool { return strings.HasPrefix(n, "readFetchResponseHeaderV") })
 		v := ""
 		ast.Inspect(fd.Body, func(n ast.Node) bool {
 			if c, ok := callEnds(n, "newMessageSetReader"); ok && len(c.Args) == 2 {
@@ -721,7 +784,7 @@ func extractMuxFacts(repo, root string) error {
 						if c, isCall := as.Rhs[0].(*ast.CallExpr); isCall {
 							p = selPath(c.Fun)
 						}
-						good = strings.HasPrefix(p, "readFetchResponseHeaderV") || p == "discardOnKafkaError"
+						good = strings.HasPrefix(p, "readFetchResponseHeaderV") || p == "discardOnKafkaError" || hdrFwd[lastName(p)]
 					}
 					if !good {
 						ok, why = false, "size argument "+v+" is also assigned by: "+src(f.fset, as)
@@ -744,8 +807,19 @@ func extractMuxFacts(repo, root string) error {
 				return true
 			}
 			if isNotCall(is.Cond, "errors.Is") && strings.Contains(src(f.fset, is.Cond), "ErrNoRecord") {
+				// the loop is left by `break`, or by `return` when the loop is the last statement of the function
+				var lastLoop ast.Stmt
+				if n := len(fd.Body.List); n > 0 {
+					switch fd.Body.List[n-1].(type) {
+					case *ast.RangeStmt, *ast.ForStmt:
+						lastLoop = fd.Body.List[n-1]
+					}
+				}
 				for _, st := range is.Body.List {
 					if b, ok := st.(*ast.BranchStmt); ok && b.Tok == token.BREAK {
+						brk = true
+					}
+					if r, ok := st.(*ast.ReturnStmt); ok && len(r.Results) == 0 && lastLoop != nil && lastLoop.Pos() <= r.Pos() && r.End() <= lastLoop.End() {
 						brk = true
 					}
 				}
